@@ -181,6 +181,9 @@ def verdicts(d, cases, idxs, which, stats):
     mid = len(idxs) // 2
     out = verdicts(d, cases, idxs[:mid], which, stats)
     out.update(verdicts(d, cases, idxs[mid:], which, stats))
+    if all(v is not None for v in out.values()) and not any(set(t[1]) <= set(idxs) for t in stats.get("together", []) if t[0] == which):
+        # every item of the batch compiles alone (or in smaller batches), the batch does not: the items disturb each other
+        stats.setdefault("together", []).append((which, list(idxs), err[-300:]))
     return out
 
 
@@ -211,6 +214,11 @@ def run(chk):
             events.append({"case": i, "annotated_compiles": a is not None, "twin_compiles": b is not None,
                            "same_json": a is not None and b is not None and a[0] == b[0], "same_size": a is not None and b is not None and a[1] == b[1],
                            "same_attrs": a is not None and b is not None and a[2] == b[2], "attrs": [a[2] if a else "<did not compile>", b[2] if b else "<did not compile>"]})
+    # "compiles exactly when the un-annotated program does" also holds for SEVERAL annotated items in one crate
+    for which, batch, err in stats.get("together", []):
+        if which == "a" and not any(w == "b" and set(batch) <= set(bb) for w, bb, _ in stats.get("together", [])):
+            chk.mismatch("C19/several-items-in-one-crate/compiles-only-twin", f"{len(batch)} annotated items compile one by one but not together in one crate, their stripped twins do: {err[-200:]}",
+                         {"case": {"together": batch[:8]}, "at": [], "annotated": "\n".join(render(cases[i]["item"], "Item") for i in batch[:2])}, "Annotation!Transparent", "does not compile together")
     chk.extra["rustc_invocations"] = stats["compiles"]
     chk.extra["compile_errors_sample"] = stats.get("errors", [])[:3]
     dead = [e["case"] for e in events if not e["twin_compiles"] and not e["annotated_compiles"]]
